@@ -108,6 +108,12 @@ template <class C> struct Scenario {
         if (sp.kind == K_COMPOSE && rc == URI_SUCCESS && composed) { if (mm) mm->free(mm, composed); else vf_free(composed); composed = 0; }
     }
     static void vf_free(void *p) { vf_lib_free(p); }
+    // the result without representation details (owner flag, NULL-vs-placeholder): what a retry after a failure must reproduce
+    Str result_content(int rc) {
+        if (rc != URI_SUCCESS) return fmt("rc=%d", rc);
+        switch (sp.kind) { case K_PARSE: case K_MAKEOWNER: case K_NORMALIZE: { int t; return observe<C>(u).content_key() + " " + to_text<C>(u, &t); } case K_RESOLVE: case K_SHORTEN: { int t; return observe<C>(dest).content_key() + " " + to_text<C>(dest, &t); } }
+        return result_key(rc);
+    }
     // repeated release must be harmless
     void cleanup_again() { if (u_live) { free_uri(&u); free_uri(&u); } if (dest_live) { free_uri(&dest); free_uri(&dest); } }
     // observation of the result (for comparing runs)
